@@ -21,7 +21,17 @@ OBLIGATIONS = [
        what='oas_precision / oas_validate on the OASIS magic followed by arbitrary bytes, cut at an arbitrary position: return, no invalid access, handle released on every path (two calls in a row), validate succeeds only on a matching signature',
        bound='14 magic bytes + 8 arbitrary bytes; every cut position 0..22 (one variant each); version-string length byte in {0, 1, 3}; crc32 as a rolling function',
        variants=[{'OP': 0, 'VLEN': v, 'LEN': n} for v in (0, 1, 3) for n in range(0, 23) if not (v != 3 and n < 14)] + [{'OP': 1, 'LEN': n} for n in range(0, 23)], unwind=25, timeout=300, mem_gb=8, wrap_files=True, nvec=10),
+    Ob('light_readers_truncated', 'C18/light_readers.c', ['_ZN5gdstk9gds_unitsEPKcRdS2_', '_ZN5gdstk13gds_timestampEPKcPK2tmPNS_9ErrorCodeE', '_ZN5gdstk8gds_infoEPKcRNS_11LibraryInfoE', '_ZN5gdstk20gdsii_real_to_doubleEm'],
+       stubs=[REC, COPYSTR], shrink=[(65537, 64, set())], rename={'exp2': 'my_exp2', '__fdiv': 'uf_div'},
+       what='gds_units / gds_timestamp(read) / gds_info after a scripted prefix of records then a short read: return, handle released, error - or (units, timestamp) exactly the values of the record already read',
+       bound='prefixes HEADER, BGNLIB, LIBNAME, UNITS, BGNSTR, STRNAME, BOUNDARY, LAYER, DATATYPE in file order, cut after each; payload bytes arbitrary',
+       variants=[{'READER': r, 'SCRIPT': sc} for r in (0, 1, 2) for sc in (0, 1, 12, 123, 1234, 12345, 123456, 1234567, 12345678) if not (r == 0 and sc > 1234) and not (r == 1 and sc > 123)], unwind=27, timeout=300, mem_gb=8, wrap_files=True, nvec=10),
+    Ob('read_gds_truncated', 'C18/read_gds.c', ['_ZN5gdstk8read_gdsEPKcddPKNS_3SetImEEPNS_9ErrorCodeE'],
+       stubs=[REC], shrink=[(65537, 64, set())], rename={'exp2': 'my_exp2', '__fdiv': 'uf_div', 'strlen': 'my_strlen1'},
+       what='read_gds after every prefix of HEADER LIBNAME UNITS BGNSTR STRNAME BOUNDARY LAYER XY ENDEL followed by a short read: returns, no invalid/double free, handle released, error set, empty library',
+       bound='the 8 prefixes up to LAYER (the XY / ENDEL prefixes gave no verdict within 10 GB); payload bytes (names, units, coordinates, layer) arbitrary, data-type bytes as in a valid file',
+       variants=[{'SCRIPT': sc} for sc in (0, 1, 12, 123, 1234, 12345, 123456, 1234567)], unwind=19, timeout=400, mem_gb=10, wrap_files=True, nvec=10),
 ]
-BOUNDS = ''
-OUTSIDE = ''
+BOUNDS = 'record reader: streams of 0..12 bytes; readers: scripted record prefixes (kinds enumerated, payload arbitrary) followed by a short read; OASIS light queries: magic + 8 arbitrary bytes, every cut position'
+OUTSIDE = 'the full OASIS loader (excluded by the property); record payloads longer than 24 bytes; prefixes longer than 8 records; read_gds prefixes that include XY / ENDEL records; memory leaks (only handle leaks and invalid accesses are asserted)'
 ASSUMPTIONS = ['gdsii_read_record replaced by its contract in the reader obligations (scripted record kinds, arbitrary payload, then a short read); the real function is the subject of record_reader', 'in-memory FILE model (engine/env/vfile.h)', 'malloc never fails']
